@@ -265,6 +265,8 @@ def handle (toks : List String) : String :=
   | "ipcx" :: _ => "SKIP"
   | "pqmeta" :: _ => "SKIP"
   | "flight" :: _ => "SKIP"
+  | "avrod" :: _ => "SKIP"
+  | "csvo" :: _ => "SKIP"
   | ["avro", _bs, hex, chunks, hdr] =>
     -- OCF file: the model covers the block region after the header; the chunk boundaries the
     -- `BlockDecoder` sees are those of the file chunks that lie behind the header
